@@ -53,6 +53,44 @@ Theorem C10_empty_submission_no_trace_full : forall max rst ok s, s = UNil \/ s 
 Proof. exact r_empty_submission_no_trace. Qed.
 Print Assumptions C10_empty_submission_no_trace_full.
 
+(* Admission of ONE submission is ONE atomic step, whatever the submission contains (a batch id stands for the whole
+   transaction list: any number of transactions of any sizes): either nothing happens — no datastore write, queue,
+   records and sequence counter unchanged — or the whole submission becomes exactly one queue entry and one record,
+   by exactly one datastore write.  There is no state in which part of a submission is queued or stored. *)
+Theorem C10_submission_atomic_full : forall max rst ok s,
+  (fst (r_step max rst (UOp (USubmit ok s))) = rst /\ r_wlog max rst [UOp (USubmit ok s)] = []) \/
+  (exists b, s = UB b /\ ok = true /\
+     snd (r_step max rst (UOp (USubmit ok s))) = Some ROk /\
+     r_wlog max rst [UOp (USubmit ok s)] = [WPut (nseq rst) b] /\
+     mem (core (fst (r_step max rst (UOp (USubmit ok s))))) = mem (core rst) ++ [(nseq rst, b)] /\
+     db (core (fst (r_step max rst (UOp (USubmit ok s))))) = db_put (nseq rst) b (db (core rst)) /\
+     nseq (fst (r_step max rst (UOp (USubmit ok s)))) = nseq rst + 1).
+Proof. exact r_submission_atomic. Qed.
+Print Assumptions C10_submission_atomic_full.
+
+(* ... also under a process death at ANY point inside the submission (n = number of its datastore writes that became
+   durable, any n): the restarted process is built from the old records or from the old records plus the whole
+   submission as one record. *)
+Theorem C10_submission_crash_atomic_full : forall max rst ok s n,
+  fst (r_step max rst (UCrash (USubmit ok s) n)) = r_boot (db (core rst)) \/
+  (exists b, s = UB b /\
+     fst (r_step max rst (UCrash (USubmit ok s) n)) = r_boot (db_put (nseq rst) b (db (core rst)))).
+Proof. exact r_submission_crash_atomic. Qed.
+Print Assumptions C10_submission_crash_atomic_full.
+
+(* ... spelled out for a submission given as its list of transactions (id, size in bytes): for every naming [enc]
+   of transaction lists, every list, every size. *)
+Theorem C10_submission_of_any_size_atomic_full : forall (enc : list tx -> batch) max rst ok req,
+  (fst (r_step max rst (UOp (USubmit ok (sub_of enc req)))) = rst /\
+   r_wlog max rst [UOp (USubmit ok (sub_of enc req))] = []) \/
+  (exists l, req = Some l /\ l <> [] /\ ok = true /\
+     snd (r_step max rst (UOp (USubmit ok (sub_of enc req)))) = Some ROk /\
+     r_wlog max rst [UOp (USubmit ok (sub_of enc req))] = [WPut (nseq rst) (enc l)] /\
+     mem (core (fst (r_step max rst (UOp (USubmit ok (sub_of enc req)))))) = mem (core rst) ++ [(nseq rst, enc l)] /\
+     db (core (fst (r_step max rst (UOp (USubmit ok (sub_of enc req)))))) = db_put (nseq rst) (enc l) (db (core rst))).
+Proof. exact r_sized_submission_atomic. Qed.
+Print Assumptions C10_submission_of_any_size_atomic_full.
+
 (* ---- non-vacuity: a concrete history -------------------------------------------------------------------- *)
 (* bound 3: identical contents pending together (7, 7), a restart with three pending, a full rejection, a
    foreign chain id, empty submissions, a crash that loses a submission, one that keeps it, a crash that
@@ -99,3 +137,17 @@ Example after_the_repair :
   r_outputs 0 [UOp (USubmit true (UB 1)); UOp (USubmit true (UB 2)); URestart; UOp (UNext true)]
     = [Some ROk; Some ROk; None; Some (RBatch 1)].
 Proof. vm_compute. split; reflexivity. Qed.
+
+(* a 2.1 MB submission of three 700 kB transactions into a queue of bound 2 with one batch pending (the contents id 8
+   stands for the whole list): accepted as ONE entry under ONE record; a second one is rejected whole; after a crash
+   inside a submission whose write was lost, and a restart, exactly the two accepted batches are handed out, once *)
+Definition ex_large : list tx := [(1, 700000); (2, 700000); (3, 700000)].
+Example ex_large_submission :
+  payload ex_large = 2100000 /\
+  let enc := fun _ : list tx => 8 in
+  let h := [ UOp (USubmit true (UB 5)); UOp (USubmit true (sub_of enc (Some ex_large)));
+             UOp (USubmit true (sub_of enc (Some ex_large))); UCrash (USubmit true (sub_of enc (Some ex_large))) 0;
+             UOp (UNext true); URestart; UOp (UNext true); UOp (UNext true) ] in
+  r_outputs 2 h = [Some ROk; Some ROk; Some RFull; None; Some (RBatch 5); None; Some (RBatch 8); Some REmpty] /\
+  r_wlog 2 r_st0 h = [WPut 0 5; WPut 1 8; WDel 0; WDel 1].
+Proof. vm_compute. repeat split; reflexivity. Qed.
